@@ -29,6 +29,7 @@ ASSUMPTIONS = [
     'smoothing window is a percentage of the layer count (0-100)',
     'for Guillot parameters outside the documented bounds but not in a listed rejected class nothing beyond agreement with the closed form is asserted',
 ]
+RULE = RULE + ' ' + 'Also: Guillot faults arriving through the fitting parameter after a first valid use, Guillot profiles re-initialised on another pressure grid and planet, NPoint nodes as numpy arrays, a slope limit just above the steepest segment; cases stratified by kind.'
 REQUIRED = {'npoint:nodes-as-arrays': 0.04, 'slope-just-below-limit': 0.004, 'guillot-fault-set-after-first-use': 0.02, 'negative-node': 0.006, 'kind:npoint': 0.08, 'kind:guillot': 0.06, 'kind:array': 0.04, 'kind:file': 0.03, 'kind:rodgers': 0.04,
             'kind:isothermal': 0.02, 'rejected-class': 0.04}
 # coverage-guided extra (thorough tier): pure-Python taurex modules on this property's path, instrumented by atheris
